@@ -33,6 +33,38 @@ class Perm(enum.Flag):
     X = 1
 
 
+class Keep(enum.Flag, boundary=enum.KEEP):     # keeps bits no member names
+    A = 1
+    B = 2
+
+
+class Wide(enum.Flag):                          # a multi-bit member whose bits have no member of their own
+    A = 1
+    BC = 6
+
+
+class Alias(enum.Flag):                         # a named combination
+    R = 4
+    W = 2
+    RW = 6
+
+
+class StrictF(enum.Flag, boundary=enum.STRICT):
+    A = 1
+    B = 2
+
+
+class StrE(str, enum.Enum):
+    X = 'x'
+    Y = 'why not'
+
+
+class TupE(enum.Enum):
+    P = (1, 2)
+    Q = 'q q'
+    ALIAS_OF_P = (1, 2)
+
+
 class Level(enum.IntEnum):
     LOW = 1
     HIGH = 2
@@ -49,7 +81,7 @@ class MyError(Exception):
 NS = {'datetime': datetime, 'collections': collections, 'uuid': uuid, 'types': types, 'functools': functools,
       'pathlib': pathlib, 'time': time, 'pytz': pytz, 'c07': None, 'mappingproxy': types.MappingProxyType,
       'float': float, 'frozenset': frozenset, 'set': set, 'print': print, 'int': int, 'sorted': sorted, 'max': max}
-for _c in (Color, Perm, Level, Point, Empty, MyError):
+for _c in (Color, Perm, Level, Point, Empty, MyError, Keep, Wide, Alias, StrictF, StrE, TupE):
     _c.__module__ = 'c07'
 
 
@@ -58,7 +90,7 @@ class _Mod:
 
 
 _mod = _Mod()
-for _c in (Color, Perm, Level, Point, Empty, MyError):
+for _c in (Color, Perm, Level, Point, Empty, MyError, Keep, Wide, Alias, StrictF, StrE, TupE):
     setattr(_mod, _c.__name__, _c)
 NS['c07'] = _mod
 
@@ -164,9 +196,13 @@ def gen_std(r, depth=0):
     if kind == 'uuid':
         return uuid.UUID(int=r.choice([0, 2 ** 128 - 1, r.getrandbits(128)]))
     if kind == 'enum':
-        return r.choice(list(Color))
+        return r.choice(list(Color) + list(StrE) + [TupE.P, TupE.Q, TupE.ALIAS_OF_P])
     if kind == 'flag':
-        return r.choice([Perm.R, Perm.W, Perm.R | Perm.W, Perm.R | Perm.W | Perm.X, Perm(0)])
+        return r.choice([Perm.R, Perm.W, Perm.R | Perm.W, Perm.R | Perm.W | Perm.X, Perm(0),
+                         Keep(5), Keep(4), Keep(7), Keep(3), Keep(0), Keep.A, Keep(12),
+                         Wide.A | Wide.BC, Wide.BC, Wide(0), Wide.A,
+                         Alias.RW, Alias.R | Alias.W, Alias.R, Alias(0),
+                         StrictF.A | StrictF.B, StrictF.B, StrictF(0)])
     if kind == 'intenum':
         return r.choice(list(Level))
     if kind == 'namespace':
@@ -366,7 +402,8 @@ def main(tier):
             'resolution, +-365 days, negative, random), datetime / time (zero suffixes, fold, tzinfo), date min/max, '
             'timezone (utc, fixed offsets with and without a name, seconds), pytz zones (named and localized DST), '
             'OrderedDict, defaultdict (factory None / list / int / dict / set), deque (maxlen None/0/3/10), Counter, '
-            'ChainMap (0..3 maps, empty maps), mappingproxy, UUID, Enum / Flag (single, composite, zero) / IntEnum '
+            'ChainMap (0..3 maps, empty maps), mappingproxy, UUID, Enum (plain, str mix-in, tuple values, alias) / Flag '
+            '(single, composite, zero, named combination, KEEP boundary with unnamed bits, STRICT, multi-bit members) / IntEnum '
             'members, SimpleNamespace, namedtuples (incl. field-less), partial, exceptions, pure paths, struct_time; '
             'alone and nested in list / dict / tuple; widths 1..200. Oracle: no "raised an exception" warning, '
             'eval(text) with the modules in scope is an equal object of the same type. For timedelta / datetime / time '
